@@ -163,8 +163,8 @@ Proof. exact ex_dag_ok. Qed.
    container against the input's.)
    For set/frozenset nodes the members correspond as a permutation ([same_items]).
    _partial: sets are required to be flat ([no_sets]: their members are pairwise
-   unequal leaves); sets of tuples/frozensets are checked on the code by `holds`,
-   not proved. *)
+   unequal leaves or tuples of leaves); sets holding nested tuples or frozensets are
+   checked on the code by `holds`, not proved. *)
 Theorem C08_default_copy_partial : forall reraise id k items,
   let root := ONode id k items in
   NoDup (ids root) -> wf_keys root -> no_sets root -> imm_backref [] root = false ->
